@@ -224,6 +224,14 @@ def specToLocal (ops : StrOps α) (maps : List (DeclMap α)) (allow : Bool) (att
     | .raised => false
     | .ok d => dictEq d (expectedDict es)
 
+/-- Typed values: the specification is about the statement as parsed (the text of a value is its
+    character content, for the XSD numeric / boolean / date types the canonical form Python computes);
+    a statement with a value that does not fit its declared type is unconstrained. -/
+def specParsed {β : Type} (parsed : Res β) (check : β → Bool) : Bool :=
+  match parsed with
+  | .raised => true
+  | .ok x => check x
+
 /-! ### receipt of several attribute statements (`AuthnResponse.get_identity`) -/
 
 def mustKeys (es : List (Expect α)) : List α :=
